@@ -12,6 +12,8 @@ let coq_string (s : Stdlib.String.t) : M.string =
   let r = ref EmptyString in
   for i = Stdlib.String.length s - 1 downto 0 do r := String (ascii_of_char (Stdlib.String.get s i), !r) done; !r
 let split_ws (s : Stdlib.String.t) = List.filter (fun x -> x <> "") (Stdlib.String.split_on_char ' ' s)
+let unhex (h : Stdlib.String.t) : Stdlib.String.t =
+  if h = "-" then "" else Stdlib.String.init (Stdlib.String.length h / 2) (fun i -> Char.chr (int_of_string ("0x" ^ Stdlib.String.sub h (2 * i) 2)))
 let cred_of = function
   | 0 -> CNone | 1 -> CWrong | 2 -> CAdmin | 3 -> CPair O | 4 -> CPair (S O) | 5 -> CPair (S (S O)) | _ -> CDead
 
@@ -25,17 +27,24 @@ let () =
     if Stdlib.String.trim line <> "" then begin
       match List.map Stdlib.String.trim (Stdlib.String.split_on_char ':' line) with
       | [id; req; obs] when Stdlib.String.get id 0 = 'r' ->
-        (match List.map int_of_string (split_ws req), List.map int_of_string (split_ws obs) with
-         | [ki; cred; ts; dbg; hp; ak], [cls; need; changed; hasres] ->
+        (match split_ws req, List.map int_of_string (split_ws obs) with
+         | [ki; cred; ts; dbg; hp; _ak; keyhex], [cls; need; changed; hasres; adminch] ->
+           let ki = int_of_string ki and cred = int_of_string cred and ts = int_of_string ts and dbg = int_of_string dbg and hp = int_of_string hp in
            let k = coq_string kinds.(ki) in
-           let o = handle (ts <> 0) (dbg <> 0) (cred_of cred) k (hp <> 0) (ak <> 0) in
+           let key = coq_string (unhex keyhex) in
+           let is_cfg = kinds.(ki) = "config.set" && hp <> 0 in
+           let ak = is_cfg && gate_admin_key key in
+           let o = handle (ts <> 0) (dbg <> 0) (cred_of cred) k (hp <> 0) ak in
            let (mc, mn) = (match o with
              | Unauthorized -> (0, -1) | Forbidden n -> (1, int_of_nat n) | DebugDisabled -> (2, -1)
              | Unsupported -> (3, -1) | Dispatched -> (4, -1)) in
-           let j = judge_request k (nat_of_int cred) (ts <> 0) (dbg <> 0) (hp <> 0) (ak <> 0)
-                     (nat_of_int cls) (nat_of_int (max need 0)) (changed <> 0) (hasres <> 0) in
-           (* the model predicts class and needed role; `changed`/`has_result` are judged, not predicted *)
-           Printf.printf "%s M %d %d | J %s\n" id mc mn (if j then "1" else "0")
+           let j = judge_request k (nat_of_int cred) (ts <> 0) (dbg <> 0) (hp <> 0) key
+                     (nat_of_int cls) (nat_of_int (max need 0)) (changed <> 0) (hasres <> 0) (adminch <> 0) in
+           (* the model predicts class and needed role, and bounds the admin-only effect: it can happen only where admin_effect says so;
+              `changed`/`has_result` are judged, not predicted *)
+           let predicted = is_cfg && admin_effect false (ts <> 0) (dbg <> 0) (cred_of cred) key in
+           let a = if adminch <> 0 && not predicted then "A1" else "A0" in
+           Printf.printf "%s M %d %d | J %s %s\n" id mc mn (if j then "1" else "0") a
          | _ -> Printf.printf "%s BAD\n" id)
       | [id; _req; obs] when Stdlib.String.get id 0 = 'g' ->
         (match List.map int_of_string (split_ws obs) with
